@@ -38,57 +38,45 @@ Proof. exact accept_iff_repr_asn_dotted_part. Qed.
 Theorem C18_accepted_encodes_asn_dotted_part : forall v, accept_asn_dotted_part v = true -> dec_asn_dotted_part (enc_asn_dotted_part v) = v /\ length (enc_asn_dotted_part v) = 2%nat.
 Proof. exact accepted_encodes_asn_dotted_part. Qed.
 
-Theorem C18_community_high_refuted : exists v, accept_community_high v <> repr_community_high v.
-Proof. exact community_high_refuted. Qed.
-Theorem C18_community_high_partial : forall v, repr_community_high v = true -> accept_community_high v = true.
-Proof. exact community_high_partial. Qed.
-Theorem C18_representable_encodes_community_high : forall v, repr_community_high v = true -> dec_community_high (enc_community_high v) = v /\ length (enc_community_high v) = 2%nat.
-Proof. exact representable_encodes_community_high. Qed.
+Theorem C18_accept_iff_representable_community_high : forall v, accept_community_high v = true <-> repr_community_high v = true.
+Proof. exact accept_iff_repr_community_high. Qed.
+Theorem C18_accepted_encodes_community_high : forall v, accept_community_high v = true -> dec_community_high (enc_community_high v) = v /\ length (enc_community_high v) = 2%nat.
+Proof. exact accepted_encodes_community_high. Qed.
 
-Theorem C18_community_low_refuted : exists v, accept_community_low v <> repr_community_low v.
-Proof. exact community_low_refuted. Qed.
-Theorem C18_community_low_partial : forall v, repr_community_low v = true -> accept_community_low v = true.
-Proof. exact community_low_partial. Qed.
-Theorem C18_representable_encodes_community_low : forall v, repr_community_low v = true -> dec_community_low (enc_community_low v) = v /\ length (enc_community_low v) = 2%nat.
-Proof. exact representable_encodes_community_low. Qed.
+Theorem C18_accept_iff_representable_community_low : forall v, accept_community_low v = true <-> repr_community_low v = true.
+Proof. exact accept_iff_repr_community_low. Qed.
+Theorem C18_accepted_encodes_community_low : forall v, accept_community_low v = true -> dec_community_low (enc_community_low v) = v /\ length (enc_community_low v) = 2%nat.
+Proof. exact accepted_encodes_community_low. Qed.
 
 Theorem C18_accept_iff_representable_community_number : forall v, accept_community_number v = true <-> repr_community_number v = true.
 Proof. exact accept_iff_repr_community_number. Qed.
 Theorem C18_accepted_encodes_community_number : forall v, accept_community_number v = true -> dec_community_number (enc_community_number v) = v /\ length (enc_community_number v) = 4%nat.
 Proof. exact accepted_encodes_community_number. Qed.
 
-Theorem C18_large_community_part_refuted : exists v, accept_large_community_part v <> repr_large_community_part v.
-Proof. exact large_community_part_refuted. Qed.
-Theorem C18_large_community_part_partial : forall v, repr_large_community_part v = true -> accept_large_community_part v = true.
-Proof. exact large_community_part_partial. Qed.
-Theorem C18_representable_encodes_large_community_part : forall v, repr_large_community_part v = true -> dec_large_community_part (enc_large_community_part v) = v /\ length (enc_large_community_part v) = 4%nat.
-Proof. exact representable_encodes_large_community_part. Qed.
+Theorem C18_accept_iff_representable_large_community_part : forall v, accept_large_community_part v = true <-> repr_large_community_part v = true.
+Proof. exact accept_iff_repr_large_community_part. Qed.
+Theorem C18_accepted_encodes_large_community_part : forall v, accept_large_community_part v = true -> dec_large_community_part (enc_large_community_part v) = v /\ length (enc_large_community_part v) = 4%nat.
+Proof. exact accepted_encodes_large_community_part. Qed.
 
 Theorem C18_accept_iff_representable_label : forall v, accept_label v = true <-> repr_label v = true.
 Proof. exact accept_iff_repr_label. Qed.
 Theorem C18_accepted_encodes_label : forall v, accept_label v = true -> dec_label (enc_label v) = v /\ length (enc_label v) = 3%nat.
 Proof. exact accepted_encodes_label. Qed.
 
-Theorem C18_path_information_refuted : exists v, accept_path_information v <> repr_path_information v.
-Proof. exact path_information_refuted. Qed.
-Theorem C18_path_information_partial : forall v, repr_path_information v = true -> accept_path_information v = true.
-Proof. exact path_information_partial. Qed.
-Theorem C18_representable_encodes_path_information : forall v, repr_path_information v = true -> dec_path_information (enc_path_information v) = v /\ length (enc_path_information v) = 4%nat.
-Proof. exact representable_encodes_path_information. Qed.
+Theorem C18_accept_iff_representable_path_information : forall v, accept_path_information v = true <-> repr_path_information v = true.
+Proof. exact accept_iff_repr_path_information. Qed.
+Theorem C18_accepted_encodes_path_information : forall v, accept_path_information v = true -> dec_path_information (enc_path_information v) = v /\ length (enc_path_information v) = 4%nat.
+Proof. exact accepted_encodes_path_information. Qed.
 
-Theorem C18_attribute_code_refuted : exists v, accept_attribute_code v <> repr_attribute_code v.
-Proof. exact attribute_code_refuted. Qed.
-Theorem C18_attribute_code_partial : forall v, repr_attribute_code v = true -> accept_attribute_code v = true.
-Proof. exact attribute_code_partial. Qed.
-Theorem C18_representable_encodes_attribute_code : forall v, repr_attribute_code v = true -> dec_attribute_code (enc_attribute_code v) = v /\ length (enc_attribute_code v) = 1%nat.
-Proof. exact representable_encodes_attribute_code. Qed.
+Theorem C18_accept_iff_representable_attribute_code : forall v, accept_attribute_code v = true <-> repr_attribute_code v = true.
+Proof. exact accept_iff_repr_attribute_code. Qed.
+Theorem C18_accepted_encodes_attribute_code : forall v, accept_attribute_code v = true -> dec_attribute_code (enc_attribute_code v) = v /\ length (enc_attribute_code v) = 1%nat.
+Proof. exact accepted_encodes_attribute_code. Qed.
 
-Theorem C18_attribute_flag_refuted : exists v, accept_attribute_flag v <> repr_attribute_flag v.
-Proof. exact attribute_flag_refuted. Qed.
-Theorem C18_attribute_flag_partial : forall v, repr_attribute_flag v = true -> accept_attribute_flag v = true.
-Proof. exact attribute_flag_partial. Qed.
-Theorem C18_representable_encodes_attribute_flag : forall v, repr_attribute_flag v = true -> dec_attribute_flag (enc_attribute_flag v) = v /\ length (enc_attribute_flag v) = 1%nat.
-Proof. exact representable_encodes_attribute_flag. Qed.
+Theorem C18_accept_iff_representable_attribute_flag : forall v, accept_attribute_flag v = true <-> repr_attribute_flag v = true.
+Proof. exact accept_iff_repr_attribute_flag. Qed.
+Theorem C18_accepted_encodes_attribute_flag : forall v, accept_attribute_flag v = true -> dec_attribute_flag (enc_attribute_flag v) = v /\ length (enc_attribute_flag v) = 1%nat.
+Proof. exact accepted_encodes_attribute_flag. Qed.
 
 Theorem C18_accept_iff_representable_vpls_endpoint : forall v, accept_vpls_endpoint v = true <-> repr_vpls_endpoint v = true.
 Proof. exact accept_iff_repr_vpls_endpoint. Qed.
@@ -105,64 +93,50 @@ Proof. exact accept_iff_repr_vpls_offset. Qed.
 Theorem C18_accepted_encodes_vpls_offset : forall v, accept_vpls_offset v = true -> dec_vpls_offset (enc_vpls_offset v) = v /\ length (enc_vpls_offset v) = 2%nat.
 Proof. exact accepted_encodes_vpls_offset. Qed.
 
-Theorem C18_vpls_base_refuted : exists v, accept_vpls_base v <> repr_vpls_base v.
-Proof. exact vpls_base_refuted. Qed.
-Theorem C18_vpls_base_partial : forall v, accept_vpls_base v = true -> repr_vpls_base v = true.
-Proof. exact vpls_base_partial. Qed.
-Theorem C18_representable_encodes_vpls_base : forall v, repr_vpls_base v = true -> dec_vpls_base (enc_vpls_base v) = v /\ length (enc_vpls_base v) = 3%nat.
-Proof. exact representable_encodes_vpls_base. Qed.
+Theorem C18_accept_iff_representable_vpls_base : forall v, accept_vpls_base v = true <-> repr_vpls_base v = true.
+Proof. exact accept_iff_repr_vpls_base. Qed.
+Theorem C18_accepted_encodes_vpls_base : forall v, accept_vpls_base v = true -> dec_vpls_base (enc_vpls_base v) = v /\ length (enc_vpls_base v) = 3%nat.
+Proof. exact accepted_encodes_vpls_base. Qed.
 
 Theorem C18_accept_iff_representable_flow_port : forall v, accept_flow_port v = true <-> repr_flow_port v = true.
 Proof. exact accept_iff_repr_flow_port. Qed.
 Theorem C18_accepted_encodes_flow_port : forall v, accept_flow_port v = true -> dec_flow_port (enc_flow_port v) = v /\ (length (enc_flow_port v) = 1%nat \/ length (enc_flow_port v) = 2%nat).
 Proof. exact accepted_encodes_flow_port. Qed.
 
-Theorem C18_flow_packet_length_refuted : exists v, accept_flow_packet_length v <> repr_flow_packet_length v.
-Proof. exact flow_packet_length_refuted. Qed.
-Theorem C18_flow_packet_length_partial : forall v, repr_flow_packet_length v = true -> accept_flow_packet_length v = true.
-Proof. exact flow_packet_length_partial. Qed.
-Theorem C18_representable_encodes_flow_packet_length : forall v, repr_flow_packet_length v = true -> dec_flow_packet_length (enc_flow_packet_length v) = v /\ (length (enc_flow_packet_length v) = 1%nat \/ length (enc_flow_packet_length v) = 2%nat).
-Proof. exact representable_encodes_flow_packet_length. Qed.
+Theorem C18_accept_iff_representable_flow_packet_length : forall v, accept_flow_packet_length v = true <-> repr_flow_packet_length v = true.
+Proof. exact accept_iff_repr_flow_packet_length. Qed.
+Theorem C18_accepted_encodes_flow_packet_length : forall v, accept_flow_packet_length v = true -> dec_flow_packet_length (enc_flow_packet_length v) = v /\ (length (enc_flow_packet_length v) = 1%nat \/ length (enc_flow_packet_length v) = 2%nat).
+Proof. exact accepted_encodes_flow_packet_length. Qed.
 
-Theorem C18_flow_protocol_refuted : exists v, accept_flow_protocol v <> repr_flow_protocol v.
-Proof. exact flow_protocol_refuted. Qed.
-Theorem C18_flow_protocol_partial : forall v, repr_flow_protocol v = true -> accept_flow_protocol v = true.
-Proof. exact flow_protocol_partial. Qed.
-Theorem C18_representable_encodes_flow_protocol : forall v, repr_flow_protocol v = true -> dec_flow_protocol (enc_flow_protocol v) = v /\ length (enc_flow_protocol v) = 1%nat.
-Proof. exact representable_encodes_flow_protocol. Qed.
+Theorem C18_accept_iff_representable_flow_protocol : forall v, accept_flow_protocol v = true <-> repr_flow_protocol v = true.
+Proof. exact accept_iff_repr_flow_protocol. Qed.
+Theorem C18_accepted_encodes_flow_protocol : forall v, accept_flow_protocol v = true -> dec_flow_protocol (enc_flow_protocol v) = v /\ length (enc_flow_protocol v) = 1%nat.
+Proof. exact accepted_encodes_flow_protocol. Qed.
 
-Theorem C18_flow_next_header_refuted : exists v, accept_flow_next_header v <> repr_flow_next_header v.
-Proof. exact flow_next_header_refuted. Qed.
-Theorem C18_flow_next_header_partial : forall v, repr_flow_next_header v = true -> accept_flow_next_header v = true.
-Proof. exact flow_next_header_partial. Qed.
-Theorem C18_representable_encodes_flow_next_header : forall v, repr_flow_next_header v = true -> dec_flow_next_header (enc_flow_next_header v) = v /\ length (enc_flow_next_header v) = 1%nat.
-Proof. exact representable_encodes_flow_next_header. Qed.
+Theorem C18_accept_iff_representable_flow_next_header : forall v, accept_flow_next_header v = true <-> repr_flow_next_header v = true.
+Proof. exact accept_iff_repr_flow_next_header. Qed.
+Theorem C18_accepted_encodes_flow_next_header : forall v, accept_flow_next_header v = true -> dec_flow_next_header (enc_flow_next_header v) = v /\ length (enc_flow_next_header v) = 1%nat.
+Proof. exact accepted_encodes_flow_next_header. Qed.
 
-Theorem C18_flow_icmp_type_refuted : exists v, accept_flow_icmp_type v <> repr_flow_icmp_type v.
-Proof. exact flow_icmp_type_refuted. Qed.
-Theorem C18_flow_icmp_type_partial : forall v, repr_flow_icmp_type v = true -> accept_flow_icmp_type v = true.
-Proof. exact flow_icmp_type_partial. Qed.
-Theorem C18_representable_encodes_flow_icmp_type : forall v, repr_flow_icmp_type v = true -> dec_flow_icmp_type (enc_flow_icmp_type v) = v /\ length (enc_flow_icmp_type v) = 1%nat.
-Proof. exact representable_encodes_flow_icmp_type. Qed.
+Theorem C18_accept_iff_representable_flow_icmp_type : forall v, accept_flow_icmp_type v = true <-> repr_flow_icmp_type v = true.
+Proof. exact accept_iff_repr_flow_icmp_type. Qed.
+Theorem C18_accepted_encodes_flow_icmp_type : forall v, accept_flow_icmp_type v = true -> dec_flow_icmp_type (enc_flow_icmp_type v) = v /\ length (enc_flow_icmp_type v) = 1%nat.
+Proof. exact accepted_encodes_flow_icmp_type. Qed.
 
-Theorem C18_flow_icmp_code_refuted : exists v, accept_flow_icmp_code v <> repr_flow_icmp_code v.
-Proof. exact flow_icmp_code_refuted. Qed.
-Theorem C18_flow_icmp_code_partial : forall v, repr_flow_icmp_code v = true -> accept_flow_icmp_code v = true.
-Proof. exact flow_icmp_code_partial. Qed.
-Theorem C18_representable_encodes_flow_icmp_code : forall v, repr_flow_icmp_code v = true -> dec_flow_icmp_code (enc_flow_icmp_code v) = v /\ length (enc_flow_icmp_code v) = 1%nat.
-Proof. exact representable_encodes_flow_icmp_code. Qed.
+Theorem C18_accept_iff_representable_flow_icmp_code : forall v, accept_flow_icmp_code v = true <-> repr_flow_icmp_code v = true.
+Proof. exact accept_iff_repr_flow_icmp_code. Qed.
+Theorem C18_accepted_encodes_flow_icmp_code : forall v, accept_flow_icmp_code v = true -> dec_flow_icmp_code (enc_flow_icmp_code v) = v /\ length (enc_flow_icmp_code v) = 1%nat.
+Proof. exact accepted_encodes_flow_icmp_code. Qed.
 
 Theorem C18_accept_iff_representable_flow_dscp : forall v, accept_flow_dscp v = true <-> repr_flow_dscp v = true.
 Proof. exact accept_iff_repr_flow_dscp. Qed.
 Theorem C18_accepted_encodes_flow_dscp : forall v, accept_flow_dscp v = true -> dec_flow_dscp (enc_flow_dscp v) = v /\ length (enc_flow_dscp v) = 1%nat.
 Proof. exact accepted_encodes_flow_dscp. Qed.
 
-Theorem C18_flow_traffic_class_refuted : exists v, accept_flow_traffic_class v <> repr_flow_traffic_class v.
-Proof. exact flow_traffic_class_refuted. Qed.
-Theorem C18_flow_traffic_class_partial : forall v, repr_flow_traffic_class v = true -> accept_flow_traffic_class v = true.
-Proof. exact flow_traffic_class_partial. Qed.
-Theorem C18_representable_encodes_flow_traffic_class : forall v, repr_flow_traffic_class v = true -> dec_flow_traffic_class (enc_flow_traffic_class v) = v /\ length (enc_flow_traffic_class v) = 1%nat.
-Proof. exact representable_encodes_flow_traffic_class. Qed.
+Theorem C18_accept_iff_representable_flow_traffic_class : forall v, accept_flow_traffic_class v = true <-> repr_flow_traffic_class v = true.
+Proof. exact accept_iff_repr_flow_traffic_class. Qed.
+Theorem C18_accepted_encodes_flow_traffic_class : forall v, accept_flow_traffic_class v = true -> dec_flow_traffic_class (enc_flow_traffic_class v) = v /\ length (enc_flow_traffic_class v) = 1%nat.
+Proof. exact accepted_encodes_flow_traffic_class. Qed.
 
 Theorem C18_accept_iff_representable_flow_flow_label : forall v, accept_flow_flow_label v = true <-> repr_flow_flow_label v = true.
 Proof. exact accept_iff_repr_flow_flow_label. Qed.
@@ -184,26 +158,20 @@ Proof. exact accept_iff_repr_mask_ipv6. Qed.
 Theorem C18_accepted_encodes_mask_ipv6 : forall v, accept_mask_ipv6 v = true -> dec_mask_ipv6 (enc_mask_ipv6 v) = v /\ length (enc_mask_ipv6 v) = 1%nat.
 Proof. exact accepted_encodes_mask_ipv6. Qed.
 
-Theorem C18_flow_mask_ipv4_refuted : exists v, accept_flow_mask_ipv4 v <> repr_flow_mask_ipv4 v.
-Proof. exact flow_mask_ipv4_refuted. Qed.
-Theorem C18_flow_mask_ipv4_partial : forall v, repr_flow_mask_ipv4 v = true -> accept_flow_mask_ipv4 v = true.
-Proof. exact flow_mask_ipv4_partial. Qed.
-Theorem C18_representable_encodes_flow_mask_ipv4 : forall v, repr_flow_mask_ipv4 v = true -> dec_flow_mask_ipv4 (enc_flow_mask_ipv4 v) = v /\ length (enc_flow_mask_ipv4 v) = 1%nat.
-Proof. exact representable_encodes_flow_mask_ipv4. Qed.
+Theorem C18_accept_iff_representable_flow_mask_ipv4 : forall v, accept_flow_mask_ipv4 v = true <-> repr_flow_mask_ipv4 v = true.
+Proof. exact accept_iff_repr_flow_mask_ipv4. Qed.
+Theorem C18_accepted_encodes_flow_mask_ipv4 : forall v, accept_flow_mask_ipv4 v = true -> dec_flow_mask_ipv4 (enc_flow_mask_ipv4 v) = v /\ length (enc_flow_mask_ipv4 v) = 1%nat.
+Proof. exact accepted_encodes_flow_mask_ipv4. Qed.
 
-Theorem C18_flow_mask_ipv6_refuted : exists v, accept_flow_mask_ipv6 v <> repr_flow_mask_ipv6 v.
-Proof. exact flow_mask_ipv6_refuted. Qed.
-Theorem C18_flow_mask_ipv6_partial : forall v, repr_flow_mask_ipv6 v = true -> accept_flow_mask_ipv6 v = true.
-Proof. exact flow_mask_ipv6_partial. Qed.
-Theorem C18_representable_encodes_flow_mask_ipv6 : forall v, repr_flow_mask_ipv6 v = true -> dec_flow_mask_ipv6 (enc_flow_mask_ipv6 v) = v /\ length (enc_flow_mask_ipv6 v) = 1%nat.
-Proof. exact representable_encodes_flow_mask_ipv6. Qed.
+Theorem C18_accept_iff_representable_flow_mask_ipv6 : forall v, accept_flow_mask_ipv6 v = true <-> repr_flow_mask_ipv6 v = true.
+Proof. exact accept_iff_repr_flow_mask_ipv6. Qed.
+Theorem C18_accepted_encodes_flow_mask_ipv6 : forall v, accept_flow_mask_ipv6 v = true -> dec_flow_mask_ipv6 (enc_flow_mask_ipv6 v) = v /\ length (enc_flow_mask_ipv6 v) = 1%nat.
+Proof. exact accepted_encodes_flow_mask_ipv6. Qed.
 
-Theorem C18_rd_refuted : exists n s, accept_rd n s <> repr_rd n s.
-Proof. exact rd_refuted. Qed.
-Theorem C18_rd_partial : forall n s, repr_rd n s = true -> accept_rd n s = true.
-Proof. exact rd_partial. Qed.
-Theorem C18_representable_encodes_rd : forall n s, repr_rd n s = true -> dec_rd (enc_rd n s) = (n, s) /\ length (enc_rd n s) = 8%nat.
-Proof. exact representable_encodes_rd. Qed.
+Theorem C18_accept_iff_representable_rd : forall n s, accept_rd n s = true <-> repr_rd n s = true.
+Proof. exact accept_iff_repr_rd. Qed.
+Theorem C18_accepted_encodes_rd : forall n s, accept_rd n s = true -> dec_rd (enc_rd n s) = (n, s) /\ length (enc_rd n s) = 8%nat.
+Proof. exact accepted_encodes_rd. Qed.
 
 (* non-vacuity: accepted values exist at both ends of a field, and the encoders produce the RFC octets *)
 Example C18_witness :
@@ -223,59 +191,46 @@ Print Assumptions C18_accept_iff_representable_asn.
 Print Assumptions C18_accepted_encodes_asn.
 Print Assumptions C18_accept_iff_representable_asn_dotted_part.
 Print Assumptions C18_accepted_encodes_asn_dotted_part.
-Print Assumptions C18_community_high_refuted.
-Print Assumptions C18_community_high_partial.
-Print Assumptions C18_representable_encodes_community_high.
-Print Assumptions C18_community_low_refuted.
-Print Assumptions C18_community_low_partial.
-Print Assumptions C18_representable_encodes_community_low.
+Print Assumptions C18_accept_iff_representable_community_high.
+Print Assumptions C18_accepted_encodes_community_high.
+Print Assumptions C18_accept_iff_representable_community_low.
+Print Assumptions C18_accepted_encodes_community_low.
 Print Assumptions C18_accept_iff_representable_community_number.
 Print Assumptions C18_accepted_encodes_community_number.
-Print Assumptions C18_large_community_part_refuted.
-Print Assumptions C18_large_community_part_partial.
-Print Assumptions C18_representable_encodes_large_community_part.
+Print Assumptions C18_accept_iff_representable_large_community_part.
+Print Assumptions C18_accepted_encodes_large_community_part.
 Print Assumptions C18_accept_iff_representable_label.
 Print Assumptions C18_accepted_encodes_label.
-Print Assumptions C18_path_information_refuted.
-Print Assumptions C18_path_information_partial.
-Print Assumptions C18_representable_encodes_path_information.
-Print Assumptions C18_attribute_code_refuted.
-Print Assumptions C18_attribute_code_partial.
-Print Assumptions C18_representable_encodes_attribute_code.
-Print Assumptions C18_attribute_flag_refuted.
-Print Assumptions C18_attribute_flag_partial.
-Print Assumptions C18_representable_encodes_attribute_flag.
+Print Assumptions C18_accept_iff_representable_path_information.
+Print Assumptions C18_accepted_encodes_path_information.
+Print Assumptions C18_accept_iff_representable_attribute_code.
+Print Assumptions C18_accepted_encodes_attribute_code.
+Print Assumptions C18_accept_iff_representable_attribute_flag.
+Print Assumptions C18_accepted_encodes_attribute_flag.
 Print Assumptions C18_accept_iff_representable_vpls_endpoint.
 Print Assumptions C18_accepted_encodes_vpls_endpoint.
 Print Assumptions C18_accept_iff_representable_vpls_size.
 Print Assumptions C18_accepted_encodes_vpls_size.
 Print Assumptions C18_accept_iff_representable_vpls_offset.
 Print Assumptions C18_accepted_encodes_vpls_offset.
-Print Assumptions C18_vpls_base_refuted.
-Print Assumptions C18_vpls_base_partial.
-Print Assumptions C18_representable_encodes_vpls_base.
+Print Assumptions C18_accept_iff_representable_vpls_base.
+Print Assumptions C18_accepted_encodes_vpls_base.
 Print Assumptions C18_accept_iff_representable_flow_port.
 Print Assumptions C18_accepted_encodes_flow_port.
-Print Assumptions C18_flow_packet_length_refuted.
-Print Assumptions C18_flow_packet_length_partial.
-Print Assumptions C18_representable_encodes_flow_packet_length.
-Print Assumptions C18_flow_protocol_refuted.
-Print Assumptions C18_flow_protocol_partial.
-Print Assumptions C18_representable_encodes_flow_protocol.
-Print Assumptions C18_flow_next_header_refuted.
-Print Assumptions C18_flow_next_header_partial.
-Print Assumptions C18_representable_encodes_flow_next_header.
-Print Assumptions C18_flow_icmp_type_refuted.
-Print Assumptions C18_flow_icmp_type_partial.
-Print Assumptions C18_representable_encodes_flow_icmp_type.
-Print Assumptions C18_flow_icmp_code_refuted.
-Print Assumptions C18_flow_icmp_code_partial.
-Print Assumptions C18_representable_encodes_flow_icmp_code.
+Print Assumptions C18_accept_iff_representable_flow_packet_length.
+Print Assumptions C18_accepted_encodes_flow_packet_length.
+Print Assumptions C18_accept_iff_representable_flow_protocol.
+Print Assumptions C18_accepted_encodes_flow_protocol.
+Print Assumptions C18_accept_iff_representable_flow_next_header.
+Print Assumptions C18_accepted_encodes_flow_next_header.
+Print Assumptions C18_accept_iff_representable_flow_icmp_type.
+Print Assumptions C18_accepted_encodes_flow_icmp_type.
+Print Assumptions C18_accept_iff_representable_flow_icmp_code.
+Print Assumptions C18_accepted_encodes_flow_icmp_code.
 Print Assumptions C18_accept_iff_representable_flow_dscp.
 Print Assumptions C18_accepted_encodes_flow_dscp.
-Print Assumptions C18_flow_traffic_class_refuted.
-Print Assumptions C18_flow_traffic_class_partial.
-Print Assumptions C18_representable_encodes_flow_traffic_class.
+Print Assumptions C18_accept_iff_representable_flow_traffic_class.
+Print Assumptions C18_accepted_encodes_flow_traffic_class.
 Print Assumptions C18_accept_iff_representable_flow_flow_label.
 Print Assumptions C18_accepted_encodes_flow_flow_label.
 Print Assumptions C18_accept_iff_representable_flow_mark.
@@ -284,12 +239,9 @@ Print Assumptions C18_accept_iff_representable_mask_ipv4.
 Print Assumptions C18_accepted_encodes_mask_ipv4.
 Print Assumptions C18_accept_iff_representable_mask_ipv6.
 Print Assumptions C18_accepted_encodes_mask_ipv6.
-Print Assumptions C18_flow_mask_ipv4_refuted.
-Print Assumptions C18_flow_mask_ipv4_partial.
-Print Assumptions C18_representable_encodes_flow_mask_ipv4.
-Print Assumptions C18_flow_mask_ipv6_refuted.
-Print Assumptions C18_flow_mask_ipv6_partial.
-Print Assumptions C18_representable_encodes_flow_mask_ipv6.
-Print Assumptions C18_rd_refuted.
-Print Assumptions C18_rd_partial.
-Print Assumptions C18_representable_encodes_rd.
+Print Assumptions C18_accept_iff_representable_flow_mask_ipv4.
+Print Assumptions C18_accepted_encodes_flow_mask_ipv4.
+Print Assumptions C18_accept_iff_representable_flow_mask_ipv6.
+Print Assumptions C18_accepted_encodes_flow_mask_ipv6.
+Print Assumptions C18_accept_iff_representable_rd.
+Print Assumptions C18_accepted_encodes_rd.
